@@ -1038,7 +1038,7 @@ def optimize_cons(p0, data, model_func, pts,
                   eq_constraint=None, ieq_constraint=None,
                   lower_bound=None, upper_bound=None, 
                   verbose=0, flush_delay=0.5, epsilon=1e-4,
-                  gtol=1e-5, multinom=True, maxiter=None,
+                  gtol=1e-5, multinom=True, maxiter=100,
                   full_output=False, func_args=[], func_kwargs={},
                   fixed_params=None, ll_scale=1, output_file=None):
     """
